@@ -67,13 +67,16 @@ def parseCfgTok (a : CfgAcc) (tok : String) : Option CfgAcc :=
   | "W" :: fields => do
     let r ← parseRewriteTok fields
     pure { a with rws := a.rws ++ [r] }
-  | ["C", name, type, secret, dup, addttl, rwin, rwout, rwuser, reqma, reqmap] => do
+  | ["C", name, type, secret, dup, addttl, rwin, rwout, rwuser, reqma, reqmap, hosts] => do
+    let hs ← ((hosts.splitOn ",").filter (· ≠ "")).mapM fun h => match h.splitOn "/" with
+      | [a, p] => do pure ((← ofHex a), (← p.toNat?))
+      | _ => none
     let ru ← if rwuser = "." then some none else match rwuser.splitOn ":" with
       | [p, r] => do pure (some { t := 1, pattern := (← ofHex p), repl := (← ofHex r) : ModRule })
       | _ => none
     pure { a with clis := a.clis ++ [{ name := strBytes name, type := (← type.toNat?), secret := (← ofHex secret), dup := (← dup.toNat?),
                                        addttl := (← addttl.toNat?), rwIn := findRw a rwin, rwOut := findRw a rwout, rwUser := ru,
-                                       reqMA := reqma = "1", reqMAProxy := reqmap = "1" }] }
+                                       reqMA := reqma = "1", reqMAProxy := reqmap = "1", hosts := hs }] }
   | ["S", name, type, secret, rc, ri, ss, addttl, rwin, rwout, lp, reqma] => do
     pure { a with srvs := a.srvs ++ [(name, { name := strBytes name, type := (← type.toNat?), secret := (← ofHex secret),
                                               retryCount := (← rc.toNat?), retryInterval := (← ri.toNat?), addttl := (← addttl.toNat?),
@@ -236,6 +239,27 @@ def worldOp1 (st : Option World) (op : String) (args tr : List String) : Option 
     | some k => let (w, s) := tail (removeclient w k); (some w, "ok" ++ s)
     | none => (some w, "bad-op")
   | "radput", [b], some w => (some { w with radputOk := b = "1" }, "ok")
+  | "udplisten", [], some w =>
+    let (w, o) := newrequest w
+    let (w, s) := tail { w with udpPending := some o }
+    (some w, "ok" ++ s)
+  | "udpnas", [ip], some w =>
+    let octs := (ip.splitOn ".").filterMap (·.toNat?)
+    (some { w with nas := w.nas ++ [octs.map UInt8.ofNat] }, s!"n{w.nas.length}")
+  | "udpsend", [n, pkt], some w =>
+    match n.toNat?, ofHex pkt with
+    | some n, some pkt =>
+      let w := withOracle w t
+      let (w, r) := udpRecv w n pkt
+      match r with
+      | .dropped => let (w, s) := tail w; (some w, "udp dropped" ++ s)
+      | .handled ret ci o =>
+        let fwd := String.join (w.servers.map fun s =>
+          String.join ((List.range 256).map fun i =>
+            if (slotOf s i).rq = some o then s!" fwd:{bytesStr s.conf.name}:{i}:{toHex (((getRq w o).bind (·.buf)).getD [])}" else ""))
+        let (w, s) := tail w
+        (some (udpLoopTop w), s!"udp ret={ret} created=0 c{ci}" ++ fwd ++ s)
+    | _, _ => (some w, "bad-op")
   | _, _, st => (st, "bad-op")
 
 end Drive
